@@ -260,3 +260,132 @@ def wrap_method(cls, name, post=None, pre=None, counter=None):
     else:
         setattr(cls, name, wrapper)
     return orig
+
+
+# ---------------------------------------------------------------- purity monitor
+class PurityMonitor:
+    """Invariant at a hook: the listed callables must leave their arguments as they found them.
+
+    Each listed function / method is replaced by a wrapper that takes a digest of every argument that is
+    an ndarray, an AtomArray(Stack), a BondList, a Sequence, an Alignment or a short list/tuple/dict of
+    those before the call and compares it afterwards (also when the call raises).  Differences are
+    queued; the worker turns them into a violation of oracle `arguments_untouched` after the case.
+    Functions that are documented to work in place must simply not be listed."""
+
+    MAX_BYTES = 4_000_000
+
+    def __init__(self):
+        self.violations = []
+        self.calls = {}
+        self.enabled = True
+        self._busy = False
+
+    # ---- digests
+    def _digest(self, x, depth=0):
+        import hashlib
+        try:
+            if isinstance(x, np.ndarray):
+                if x.dtype == object or x.nbytes > self.MAX_BYTES:
+                    return None
+                return ("nd", str(x.dtype), x.shape, hashlib.blake2b(np.ascontiguousarray(x).tobytes(), digest_size=8).hexdigest())
+            cls = type(x).__name__
+            if cls in ("AtomArray", "AtomArrayStack"):
+                parts = [self._digest(x.coord, depth + 1), self._digest(x.box, depth + 1) if x.box is not None else None,
+                         self._digest(x.bonds, depth + 1) if x.bonds is not None else None]
+                for name in sorted(x.get_annotation_categories()):
+                    parts.append((name, self._digest(x.get_annotation(name), depth + 1)))
+                return (cls, tuple(parts))
+            if cls == "BondList":
+                return ("BondList", x.get_atom_count(), self._digest(x.as_array(), depth + 1))
+            if cls == "Alignment":
+                return ("Alignment", self._digest(np.asarray(x.trace), depth + 1),
+                        tuple(self._digest(s, depth + 1) for s in x.sequences), repr(x.score))
+            if hasattr(x, "code") and hasattr(x, "get_alphabet"):
+                return (cls, self._digest(np.asarray(x.code), depth + 1))
+            if cls == "SubstitutionMatrix":
+                return (cls, self._digest(np.asarray(x.score_matrix()), depth + 1))
+            if cls == "AffineTransformation":
+                return (cls, self._digest(x.rotation, depth + 1), self._digest(x.center_translation, depth + 1),
+                        self._digest(x.target_translation, depth + 1))
+            if cls == "Annotation":
+                return (cls, hash(frozenset(x.get_features())))
+            if cls == "AnnotatedSequence":
+                return (cls, self._digest(x.sequence, depth + 1), int(x.sequence_start), hash(frozenset(x.annotation.get_features())))
+            if isinstance(x, (list, tuple)) and depth < 2 and len(x) <= 64:
+                return (type(x).__name__, tuple(self._digest(v, depth + 1) for v in x))
+            if isinstance(x, dict) and depth < 2 and len(x) <= 64:
+                return ("dict", tuple((repr(k), self._digest(v, depth + 1)) for k, v in x.items()))
+        except Exception:
+            return None
+        return None
+
+    def _wrap(self, fn, label, skip_self):
+        mon = self
+
+        def wrapper(*args, **kwargs):
+            if not mon.enabled or mon._busy:
+                return fn(*args, **kwargs)          # calls made by the monitor itself (digests) pass through
+            mon.calls[label] = mon.calls.get(label, 0) + 1
+            watched = list(args[1:] if skip_self else args) + list(kwargs.values())
+            mon._busy = True
+            try:
+                before = [mon._digest(a) for a in watched]
+            finally:
+                mon._busy = False
+            try:
+                return fn(*args, **kwargs)
+            finally:
+                mon._busy = True
+                try:
+                    for k, (a, b) in enumerate(zip(watched, before)):
+                        if b is not None and mon._digest(a) != b and len(mon.violations) < 20:
+                            mon.violations.append("%s changed its argument #%d (%s)" % (label, k, type(a).__name__))
+                finally:
+                    mon._busy = False
+        try:
+            wrapper.__dict__.update(getattr(fn, "__dict__", {}))     # keep markers other monitors put on the function
+        except Exception:
+            pass
+        wrapper.__wrapped__ = fn
+        wrapper.__name__ = getattr(fn, "__name__", "wrapped")
+        wrapper.__qualname__ = getattr(fn, "__qualname__", wrapper.__name__)
+        wrapper.__doc__ = getattr(fn, "__doc__", None)
+        return wrapper
+
+    def install(self, names):
+        import importlib
+        unresolved = []
+        for name in names:
+            modname, qual = name.split(":")
+            watch_self = qual.endswith("!")          # "Class.method!" -> the object itself is watched as well
+            qual = qual.rstrip("!")
+            try:
+                mod = importlib.import_module(modname)
+                parts = qual.split(".")
+                owner = mod
+                for p in parts[:-1]:
+                    owner = getattr(owner, p)
+                raw = owner.__dict__[parts[-1]] if isinstance(owner, type) and parts[-1] in owner.__dict__ else getattr(owner, parts[-1])
+                if isinstance(raw, staticmethod):
+                    new = staticmethod(self._wrap(raw.__func__, name, False))
+                elif isinstance(raw, classmethod):
+                    new = classmethod(self._wrap(raw.__func__, name, True))
+                else:
+                    new = self._wrap(raw, name, isinstance(owner, type) and not watch_self)
+                setattr(owner, parts[-1], new)
+                # re-exported names (from .x import *) are rebound in the parent packages as well
+                if not isinstance(owner, type):
+                    pkg = modname
+                    while "." in pkg:
+                        pkg = pkg.rsplit(".", 1)[0]
+                        pm = sys.modules.get(pkg)
+                        if pm is not None and getattr(pm, parts[-1], None) is raw:
+                            setattr(pm, parts[-1], new)
+                self.calls.setdefault(name, 0)
+            except Exception as e:      # extension types cannot be patched: say so instead of pretending
+                unresolved.append("%s (%s)" % (name, type(e).__name__))
+        return unresolved
+
+    def flush(self):
+        v, self.violations = self.violations, []
+        return v
